@@ -6,6 +6,9 @@ read by stdlib json and its payload compared with the model (M1), the text is
 reloaded and the public mapping compared again (M3, deep equality, list order
 preserved for caller-ordered lists), the compose section must survive, and a
 second dump must be byte-identical (M4); M5 repeats the cycle through a file.
+
+Later additions: M8 - the object that built the manifest reads its own file back and the history continues on it
+with the next sub-package of the build added last; Compose(dir).rpms / .modules as a further entry point.
 """
 import json
 import os
